@@ -179,6 +179,7 @@ def run(ctx):
     shared.overlay_slot_addressed_by_log_index(ctx, '10')   # shadowing needs the right slot: the overlay of a table lives at its log_index()
     shared.index_entry_purged_from_all_generations(ctx, '11')   # a removed key is not served through a copy of its entry in another index generation
     shared.value_read_one_guard(ctx, '12', callers=['db::DbInner::get', 'column::HashColumn::get_size'])   # a point read never returns a mix of two values
+    shared.index_entries_stored_whole(ctx, '14')   # F77: an index entry changes as a whole under a concurrent page search
     shared.removal_planned_in_order(ctx, '13')   # what the log worker applies for a transaction is what the commit overlay showed for it (F63)
     shared.lookup_sees_one_queue_state(ctx, '9')    # a reader concurrent with the end of an index growth still finds every present key
     shared.deferral_keeps_commit_order(ctx, '2')    # commit order also holds when a tree dereference in the same transaction is postponed
